@@ -12,7 +12,7 @@ enum OpKind {
     OP_CREATE, OP_OPEN, OP_CLOSE, OP_ABORT, OP_REDEF, OP_ENDDEF, OP_ENDDEF2, OP_BEGIN_INDEP, OP_END_INDEP, OP_SYNC, OP_SYNC_NUMRECS, OP_FLUSH,
     OP_SYNCPOINT, OP_BARRIER, OP_CHECKPOINT,
     OP_DEF_DIM, OP_DEF_VAR, OP_DEF_VAR_FILL, OP_SET_FILL, OP_FILL_VAR_REC, OP_PUT_ATT, OP_DEL_ATT, OP_RENAME_ATT, OP_COPY_ATT, OP_RENAME_DIM, OP_RENAME_VAR,
-    OP_PUT, OP_GET, OP_IPUT, OP_IGET, OP_BPUT, OP_WAIT, OP_CANCEL, OP_ATTACH, OP_DETACH, OP_INQ, OP_BADID, OP_DELETE, OP_SET_DEFAULT_FORMAT,
+    OP_PUT, OP_GET, OP_IPUT, OP_IGET, OP_BPUT, OP_WAIT, OP_CANCEL, OP_ATTACH, OP_DETACH, OP_INQ, OP_BADID, OP_DELETE, OP_SET_DEFAULT_FORMAT, OP_PROBE,
     OP_KIND_COUNT
 };
 extern const char *op_kind_name[];
@@ -64,6 +64,7 @@ struct Op {
     // ---- annotator
     bool skip = false;             // not legal in the current model state: nobody executes it
     int exp_rc = 0; bool rc_any = false;
+    std::vector<int> exp_rc_alt;   // other acceptable codes where the documentation fixes no precedence
     std::vector<int> exp_rc_rank;  // per-rank expected rc when they differ
     std::string note;
     std::shared_ptr<MFile> snap;      // schema (and for INQ: state) the call is checked against
